@@ -73,12 +73,12 @@ Qed.
 
 (** the cases of part A (the pure tree and ScanRange API) *)
 Definition part_a (c : case) : bool :=
-  match c with QStep _ _ _ _ _ | QLoop _ _ _ _ _ _ _ | QChain _ _ => false | _ => true end.
+  match c with QStep _ _ _ _ _ | QLoop _ _ _ _ _ _ _ | QChain _ _ | QRescan _ _ _ _ _ => false | _ => true end.
 
 Theorem agree_implies_property c : part_a c = true ->
   wf_case c = true -> known_class c = 0%N -> run_case c = true -> prop_case c = true.
 Proof.
-  destruct c as [init ops obs|s e o|s e h o|s e h o|s e h o|cx pre op post sugg|b t st rw fin sg fl|qq hh];
+  destruct c as [init ops obs|s e o|s e h o|s e h o|s e h o|cx pre op post sugg|b t st rw fin sg fl|qq hh|tg tp sc fn sg];
     cbn [part_a wf_case known_class run_case prop_case]; intros PA W K Rn; try discriminate PA.
   - destruct (has_empty init ops) eqn:HE; [discriminate|].
     destruct (no_empty_nonempty init ops HE) as (N & F).
